@@ -206,15 +206,30 @@ func c07SortedKeys(c *Ctx) {
 	key := func(s string) string { return "dhcpv4.Options.sortedKeys: " + s }
 	var sortCall *ssa.Call
 	allInstrs(f, func(in ssa.Instruction) {
-		if cl, ok := in.(*ssa.Call); ok && cl.Call.StaticCallee() != nil && strings.HasPrefix(funcKey(cl.Call.StaticCallee()), "sort.") {
+		if cl, ok := in.(*ssa.Call); ok && cl.Call.StaticCallee() != nil && (strings.HasPrefix(funcKey(cl.Call.StaticCallee()), "sort.") || strings.HasPrefix(funcKey(cl.Call.StaticCallee()), "slices.Sort")) {
 			sortCall = cl
 		}
 	})
+	// ascending order of a []int: sort.Ints or slices.Sort (the natural order of the element type)
+	ascending := func(cl *ssa.Call) bool {
+		k := funcKey(cl.Call.StaticCallee())
+		if k == "sort.Ints" {
+			return true
+		}
+		if strings.HasPrefix(k, "slices.Sort[") && len(cl.Call.Args) == 1 {
+			if st, ok := cl.Call.Args[0].Type().Underlying().(*types.Slice); ok {
+				if bt, ok := st.Elem().Underlying().(*types.Basic); ok && bt.Info()&types.IsInteger != 0 {
+					return true
+				}
+			}
+		}
+		return false
+	}
 	if sortCall == nil {
 		r.Violation("C07-K2", key("keys are sorted"), c.P.pos(f.Pos()), "no sort call")
 		return
 	}
-	if funcKey(sortCall.Call.StaticCallee()) != "sort.Ints" {
+	if !ascending(sortCall) {
 		r.Undecided("C07-K2", key("ascending integer sort"), c.P.ipos(sortCall), "the sort is "+funcKey(sortCall.Call.StaticCallee())+": a comparator-based order is outside the recognised idiom (collect, sort.Ints, append 82, append 255)")
 	}
 	// in-loop append excludes 82 and 255
@@ -531,9 +546,21 @@ func c07Pad(c *Ctx) {
 	r.Check(okCnt, "C07-K4", key("pad count is 300 − Len()"), c.P.ipos(rep), "symx", "pad count is "+cnt)
 	gc := newGuardCache(c)
 	okG := false
+	cntV := rep.Call.Args[1]
 	for _, x := range gc.of(site.Block()) {
 		if strings.HasPrefix(x.str, "bin[<](call[(*github.com/u-root/uio/uio.Buffer).Len](") && strings.HasSuffix(x.str, ",const(300))=true") {
 			okG = true
+		}
+		// the same condition stated on the pad count itself: count > 0 / count >= 1 / 0 < count (count = 300 − Len(), checked above)
+		if bo, isBo := x.cond.(*ssa.BinOp); isBo && site == rep {
+			k, kr := intConst(bo.Y)
+			kl, klr := intConst(bo.X)
+			switch {
+			case bo.X == cntV && kr && ((bo.Op == token.GTR && k == 0 && x.pol) || (bo.Op == token.GEQ && k == 1 && x.pol) || (bo.Op == token.LEQ && k == 0 && !x.pol) || (bo.Op == token.LSS && k == 1 && !x.pol)):
+				okG = true
+			case bo.Y == cntV && klr && ((bo.Op == token.LSS && kl == 0 && x.pol) || (bo.Op == token.LEQ && kl == 1 && x.pol) || (bo.Op == token.GEQ && kl == 0 && !x.pol) || (bo.Op == token.GTR && kl == 1 && !x.pol)):
+				okG = true
+			}
 		}
 	}
 	r.Check(okG, "C07-K4", key("padding only when shorter than 300 (same constant)"), c.P.ipos(rep), "guard Len() < 300", "the padding is not guarded by Len() < 300")
